@@ -128,17 +128,24 @@ def run (j : Json) : Except String Json := do
   let mode ← (← field drive "mode").getStr?
   let n ← (← field drive "n").getNat?
   let wantPos := (fieldD j "wantPos" (Json.bool false)) == Json.bool true
+  -- "pre": that many manual step_simulation calls before the blocking start_simulation (mixed driving)
+  let pre := match (fieldD drive "pre" (Json.num 0)).getNat? with | .ok k => k | .error _ => 0
   let mut w := Sim.init cfg P
+  -- "prestart": requests issued through the providers after build() and before the first step
+  for row in (← (fieldD j "prestart" (Json.arr #[])).getArr?) do
+    let pn ← (← field row "n").getNat?
+    let reqs ← (← (← field row "reqs").getArr?).toList.mapM rspecOfJson
+    w := (Sim.runProg cfg pn (progOf reqs) w).1
   let mut rets : Array Json := #[]
   let mut poss : Array Json := #[]
   let mut exhausted := false
-  for _ in [0:n] do
+  for i in [0:n + pre] do
     let (w', r) := Sim.step cfg P w
     let executedOne := w'.iter > w.iter
     w := w'
     rets := rets.push (toJson r)
     if wantPos && executedOne then poss := poss.push (positions cfg w)
-    if mode == "start" && !r then
+    if mode == "start" && i ≥ pre && !r then
       exhausted := true
       break
   let trace := w.trace
